@@ -14,7 +14,11 @@ class CaseTimeout(BaseException):
     pass
 
 
+ALARM = {"fired": False}
+
+
 def _alarm(signum, frame):
+    ALARM["fired"] = True
     raise CaseTimeout()
 
 
@@ -59,9 +63,12 @@ def main(argv=None):
         ctx = Ctx(args.check, args.tier, args.seed, index, args.verbose)
         t0 = time.time()
         before = set(reach.seen)
+        ALARM["fired"] = False
         signal.alarm(timeout)
         try:
             rec = mod.case(ctx)
+            if ALARM["fired"]:
+                raise CaseTimeout()
         except CaseTimeout:
             rec = {"verdict": "inconclusive", "why": "watchdog: case exceeded %ds" % timeout,
                    "spec": getattr(ctx, "spec", None)}
